@@ -36,6 +36,7 @@ type c01Job struct {
 	Conc   int    `json:"conc"`
 	Faults bool   `json:"faults"`
 	Free   bool   `json:"free"` // step boundaries are free switches (every step-granular interleaving at bound 0)
+	Lag    bool   `json:"lag,omitempty"` // one exchange may be answered by a backend that is 1 or 2 blocks behind the announced head
 }
 
 type c01Case struct {
@@ -52,7 +53,7 @@ func init() {
 		Rule: "jobs = 7 declaration shapes (log / array-log / all-indexed log / log with string + bytes[] incl. empty values / tx / receipt / trace) x chain words over block kinds {e empty, a 1 tx 1 log, b decoys (other signature, wrong topic count, other address), c 2 tx 2 logs, d tx without logs} x start in {1, 3, head} x (batch,conc): " +
 			"quick = all 27 words of length 3 over {e,a,b} with (1,1),(3,2) and two 5-letter words with all 20 pairs in 1..5 x 1..4; thorough = all words of length 2..4 over 5 kinds with 5 pairs and seven 5-letter words with all 20 pairs. " +
 			"Per job every schedule of {task thread stepping until the final head, environment thread revealing the last two blocks in two growth operations} with <= 1 deviation (a preemption at any JSON-RPC exchange or step boundary, or a reordering of load partitions; thorough: <= 2 deviations and every step-granular interleaving for free), " +
-			"and on fault jobs every single injected RPC/SQL fault (rpc error, transport error, SQL error, connection drop) at every I/O point. An execution is non-trivial when at least one row was emitted; distinct = distinct (job, choice sequence).",
+			"and on fault jobs every single injected RPC/SQL fault (rpc error, transport error, SQL error, connection drop) at every I/O point; on lag jobs (batch >= 2) any one JSON-RPC exchange answered by a backend 1 or 2 blocks behind the announced head. An execution is non-trivial when at least one row was emitted; distinct = distinct (job, choice sequence).",
 		Assumptions: []string{
 			"fake Postgres (h/simpg) interprets the SQL shovel sends; simulated node (h/simeth) answers like a well-behaved geth; see DESIGN.md §7",
 			"trace and receipt plans: a block without transactions answers [] (as real nodes do)",
@@ -96,14 +97,32 @@ func c01Jobs(thorough bool) []c01Job {
 		}
 		add(ws, []uint64{1, 3, 0}, [][2]int{{1, 1}, {2, 1}, {3, 2}, {2, 3}, {5, 2}}, map[string]bool{"eab": true, "bae": true, "cdc": true, "aeca": true})
 		add([]string{"abcde", "ceeac", "eeeee", "cbadc", "dcbae", "ccccc", "aeaea"}, []uint64{1, 3, 0}, all, map[string]bool{"abcde": true, "ceeac": true})
+		addLag(&jobs, []string{"abcde", "ccccc", "cbadc", "aeaea"}, all)
 		return jobs
 	}
 	// quick: every 3-letter word over {empty, 1 log, decoys} with two (batch,conc) pairs; all 20 pairs on two longer words;
 	// single faults at every I/O point on a few jobs
+	addLag(&jobs, []string{"abcde", "ccccc"}, [][2]int{{2, 1}, {3, 1}, {5, 2}})
 	add(words("eab", 3), []uint64{1, 0}, [][2]int{{1, 1}, {3, 2}}, nil)
 	add([]string{"abcde", "ceeac"}, []uint64{1, 3, 0}, all, nil)
 	add([]string{"bae", "eab"}, []uint64{1}, [][2]int{{1, 1}, {3, 2}}, map[string]bool{"bae": true, "eab": true})
 	return jobs
+}
+
+// addLag: jobs in which one JSON-RPC exchange may be answered by a lagging backend (a load-balanced source whose
+// serving node is 1 or 2 blocks behind the head the task was told): every request is answered faithfully for that
+// shorter chain (null for blocks it does not have, logs/receipts/traces only up to its head).
+func addLag(jobs *[]c01Job, ws []string, pairs [][2]int) {
+	for _, sh := range Shapes {
+		for _, w := range ws {
+			for _, bc := range pairs {
+				if bc[0] < 2 {
+					continue
+				}
+				*jobs = append(*jobs, c01Job{Shape: sh, Word: w, Start: 1, Batch: bc[0], Conc: bc[1], Lag: true})
+			}
+		}
+	}
 }
 
 type c01Prep struct {
@@ -214,6 +233,36 @@ func c01Exec(j c01Job, p *c01Prep, ch vrt.Chooser, states *vrt.StateSet, trace b
 		task := tasks[0]
 		if j.Faults {
 			w.SQLFaultKinds, w.RPCFaultKinds = 2, 2
+		}
+		if j.Lag {
+			lagLeft := 1
+			w.OnExchange = func(ex *simeth.Exchange) {
+				head := w.Node("node1").Chain().Head().Num
+				if lagLeft == 0 || head < 2 || maxBlockAsked(ex) <= head-2 {
+					return // nothing in this exchange that a backend two blocks behind would answer differently
+				}
+				k := w.V.ChooseEnv(3, vrt.KEnv, "node-lag")
+				if k == 0 {
+					return
+				}
+				lagLeft--
+				behind := w.Node("node1").Chain().Truncate(head - uint64(k))
+				calls, batch := ex.Calls, ex.Batch
+				ex.Mutate = func(resp any) any {
+					var out []any
+					for _, cl := range calls {
+						a, err := simeth.Answer(behind, cl)
+						if err != nil {
+							return resp
+						}
+						out = append(out, map[string]any(a))
+					}
+					if !batch && len(out) == 1 {
+						return out[0]
+					}
+					return out
+				}
+			}
 		}
 		envDone := len(p.steps) == 0
 		cols := w.TableCols("t1")
@@ -370,6 +419,30 @@ func injected(err error) bool {
 	return false
 }
 
+// maxBlockAsked is the greatest block number an exchange asks about (0 for requests by tag).
+func maxBlockAsked(ex *simeth.Exchange) uint64 {
+	var m uint64
+	num := func(v any) {
+		if s, ok := v.(string); ok && strings.HasPrefix(s, "0x") {
+			if n, err := strconv.ParseUint(s[2:], 16, 64); err == nil && n > m {
+				m = n
+			}
+		}
+	}
+	for _, cl := range ex.Calls {
+		if len(cl.Params) == 0 {
+			continue
+		}
+		if f, ok := cl.Params[0].(map[string]any); ok {
+			num(f["fromBlock"])
+			num(f["toBlock"])
+			continue
+		}
+		num(cl.Params[0])
+	}
+	return m
+}
+
 func c01Bounds(thorough bool, faults bool) explore.Bounds {
 	var b explore.Bounds
 	b[0], b[vrt.KPreempt], b[vrt.KOrder] = 1, 1, 1
@@ -409,6 +482,9 @@ func c01Run(c *fw.Ctx) {
 		}
 		states := vrt.NewStateSet()
 		b := c01Bounds(c.Thorough(), j.Faults)
+		if j.Lag {
+			b[vrt.KEnv] = 1
+		}
 		st := explore.Explore(b, true, func(r *explore.Run) bool {
 			res := c01Exec(j, p, r, states, false)
 			if res.harness != "" {
